@@ -1060,17 +1060,27 @@ example : validateF (NewF okChain) okNames = .allow ∧ specAccept okChain okNam
 /-- every configured root that issued the last intermediate (subject matches, signature
     verifies) is part of the engine's chain, whatever the key identifiers say, together with all
     intermediates -/
+theorem rootsel_any (ints roots : List Cert) (c r : Cert) (hc : c ∈ ints) (hr : r ∈ roots)
+    (hs : c.issuer = r.subject) (hv : r.signsLast = true) :
+    ∃ ch, chainForSig ints roots = some ch ∧ (∀ x ∈ ints ++ [r], x ∈ ch) := by
+  unfold chainForSig
+  cases ints with
+  | nil => cases hc
+  | cons i is =>
+    refine ⟨_, rfl, ?_⟩
+    intro x hx
+    rcases List.mem_append.1 hx with h | h
+    · exact List.mem_append_left _ h
+    · simp at h; subst h
+      apply List.mem_append_right
+      refine List.mem_filter.2 ⟨hr, ?_⟩
+      simp only [Bool.and_eq_true, List.any_eq_true, beq_iff_eq]
+      exact ⟨⟨c, hc, hs⟩, hv⟩
+
 theorem rootsel_complete (ints roots : List Cert) (last : Cert) (hl : ints.getLast? = some last)
     (r : Cert) (hr : r ∈ roots) (hs : last.issuer = r.subject) (hv : r.signsLast = true) :
-    ∃ ch, chainForSig ints roots = some ch ∧ (∀ c ∈ ints ++ [r], c ∈ ch) := by
-  unfold chainForSig; rw [hl]
-  refine ⟨_, rfl, ?_⟩
-  intro c hc
-  rcases List.mem_append.1 hc with h | h
-  · exact List.mem_append_left _ h
-  · simp at h; subst h
-    apply List.mem_append_right
-    exact List.mem_filter.2 ⟨hr, by simp [hs, hv]⟩
+    ∃ ch, chainForSig ints roots = some ch ∧ (∀ c ∈ ints ++ [r], c ∈ ch) :=
+  rootsel_any ints roots last r (List.mem_of_getLast? hl) hr hs hv
 
 theorem specAccept_mono (ch sub : List Level) (n : Names) (h : ∀ l ∈ sub, l ∈ ch) :
     specAccept ch n = true → specAccept sub n = true := by
@@ -1549,28 +1559,63 @@ example : validateF (NewF d8Chain) d8Names = .deny .notPermitted .dns := by deci
 
 /-! ## 17. Option order of an embedded authority -/
 
-/-- **icfirst_refuted**: `WithX509IntermediateCerts(issuing, policy)` followed by
-    `WithX509Signer(issuing, key)` leaves the list `[issuing, policy, issuing]`; `init` looks for the
-    root that issued the *last* element, the issuing CA, finds none, and the root's constraints
-    never reach the engine: the root excludes `bad.example.com`, the CA allows it. -/
-theorem icfirst_refuted :
+/-- **rootsel_any_order** (since `fix:` 6f79d48): the certificate list handed to the engine
+    contains all intermediates and every configured root that issued *an* intermediate of the
+    list (issuer name equal, signature verifies), wherever that intermediate stands — so also for
+    the list `[issuing, policy, issuing]` an embedder gets with `WithX509IntermediateCerts` before
+    `WithX509Signer`. -/
+theorem rootsel_any_order (ints roots : List Cert) (c r : Cert) (hc : c ∈ ints) (hr : r ∈ roots)
+    (hs : c.issuer = r.subject) (hv : r.signsLast = true) :
+    (∃ ch, chainForSig ints roots = some ch ∧ ∀ x ∈ ints ++ [r], x ∈ ch) ∧
+    (∃ ch, chainForSig (intsIcFirst ints) roots = some ch ∧ ∀ x ∈ ints ++ [r], x ∈ ch) := by
+  refine ⟨rootsel_any ints roots c r hc hr hs hv, ?_⟩
+  obtain ⟨ch, hch, hsub⟩ := rootsel_any (intsIcFirst ints) roots c r (List.mem_append_left _ hc) hr hs hv
+  refine ⟨ch, hch, ?_⟩
+  intro x hx
+  rcases List.mem_append.1 hx with h | h
+  · exact hsub x (List.mem_append_left _ (List.mem_append_left _ h))
+  · exact hsub x (List.mem_append_right _ h)
+
+/-- **icfirst_sound**: in the intermediates-first option order too, what the authority allows is
+    acceptable on intermediates ++ the issuing root -/
+theorem icfirst_sound (ints roots : List Cert) (n : Names) (c r : Cert) (hc : c ∈ ints)
+    (hr : r ∈ roots) (hs : c.issuer = r.subject) (hv : r.signsLast = true)
+    (hp : ∀ ch, chainForSig (intsIcFirst ints) roots = some ch → ParsedIP (ch.map (·.nc))) :
+    authorityValidateF (intsIcFirst ints) roots n = .allow →
+      specAccept ((ints ++ [r]).map (·.nc)) n = true := by
+  obtain ⟨ch, hch, hsub⟩ := (rootsel_any_order ints roots c r hc hr hs hv).2
+  intro h
+  unfold authorityValidateF at h
+  rw [hch] at h
+  have := engine_sound _ n (agree_of_parsed _ n (hp ch hch)) h
+  apply specAccept_mono _ _ n _ this
+  intro l hl'
+  obtain ⟨x, hx, rfl⟩ := List.mem_map.1 hl'
+  exact List.mem_map.2 ⟨x, hsub x hx, rfl⟩
+
+def icIssuing : Cert := caCert "issuing" "policy" "k2" "k1" {}
+def icPolicy : Cert := caCert "policy" "root" "k1" "k0" {}
+def icRoot : Cert := caCert "root" "root" "k0" "" { xDNS := [s "bad.example.com"] } true
+
+/-- **icfirst_refuted_historic** (the last-element selection `chainForLast`, before 6f79d48): the list
+    `[issuing, policy, issuing]` ends with the issuing CA, no root issued it, and the root's
+    constraints never reached the engine: the root excludes `bad.example.com`, the CA allowed it. -/
+theorem icfirst_refuted_historic :
     ¬ ∀ (ints roots : List Cert) (n : Names) (r : Cert), r ∈ roots →
-        authorityValidateF (intsIcFirst ints) roots n = .allow →
+        authorityValidateLast (intsIcFirst ints) roots (fun ch => validateF (NewF ch) n) = .allow →
         specAccept ((ints ++ [r]).map (·.nc)) n = true := by
   intro h
   exact absurd
-    (h [caCert "issuing" "policy" "k2" "k1" {}, caCert "policy" "root" "k1" "k0" {}]
-       [caCert "root" "root" "k0" "" { xDNS := [s "bad.example.com"] } true]
-       { dns := [s "x.bad.example.com"] }
-       (caCert "root" "root" "k0" "" { xDNS := [s "bad.example.com"] } true) (by simp) (by decide))
+    (h [icIssuing, icPolicy] [icRoot] { dns := [s "x.bad.example.com"] } icRoot (by simp) (by decide))
     (by decide)
 
-/-- with the signer option first the same configuration refuses the name -/
-example : authorityValidateF [caCert "issuing" "policy" "k2" "k1" {}, caCert "policy" "root" "k1" "k0" {}]
-    [caCert "root" "root" "k0" "" { xDNS := [s "bad.example.com"] } true]
-    { dns := [s "x.bad.example.com"] } = .deny .excluded .dns := by decide
+/-- now refused in both option orders -/
+example : authorityValidateF (intsIcFirst [icIssuing, icPolicy]) [icRoot] { dns := [s "x.bad.example.com"] }
+    = .deny .excluded .dns := by decide
+example : authorityValidateF [icIssuing, icPolicy] [icRoot] { dns := [s "x.bad.example.com"] }
+    = .deny .excluded .dns := by decide
 
-/-- the constraints of every intermediate do reach the engine in both orders -/
+/-- the constraints of every intermediate reach the engine in both orders -/
 theorem icfirst_keeps_intermediates (ints : List Cert) (c : Cert) (hc : c ∈ ints) :
     c ∈ intsIcFirst ints := List.mem_append_left _ hc
 
